@@ -426,6 +426,9 @@ pub fn fillers() -> Vec<Filler> {
         Filler { build: |_| Repeat(bx(Lit('a')), 1, Some(1), Q::Greedy) },
         Filler { build: |_| Repeat(bx(Alt(vec![Lit('a'), ab()])), 1, Some(1), Q::Lazy) },
         Filler { build: |_| Repeat(bx(Lit('a')), 0, Some(0), Q::Greedy) },
+        Filler { build: |_| Repeat(bx(g(Lit('a'))), 0, Some(0), Q::Greedy) },
+        Filler { build: |_| Concat(vec![Lit('a'), Repeat(bx(g(Lit('a'))), 0, Some(0), Q::Greedy)]) },
+        Filler { build: |_| Concat(vec![Repeat(bx(g(Lit('a'))), 0, Some(1), Q::Poss), Lit('a'), Repeat(bx(g(Lit('a'))), 0, Some(0), Q::Greedy)]) },
         Filler { build: |_| Repeat(bx(Lit('a')), 0, None, Q::Poss) },
         Filler { build: |_| Repeat(bx(Any), 0, None, Q::Greedy) },
         Filler { build: |_| Repeat(bx(Any), 0, None, Q::Lazy) },
